@@ -192,6 +192,10 @@ def check(ctx):
         ctx.sample({"attempt_table": table})
     ctx.anchor("supervision function (calls remove_station)", len(sup), 1)
     check_slot_expiry(ctx, P)
+    # the slot supervision distinguishes silence from a partially received telegram by the pending-byte count and measures from the
+    # last bus activity: clauses g.rx / b.sync-pause(ongoing transmission) of C01
+    from rules import C01
+    rule.import_clauses(ctx, "C01", lambda s_: (C01.check_rx(s_, P), C01.check_ongoing_tx(s_, P)), as_clause="c.supervision")
     check_candidate_kept(ctx, P, ip, fns)
     check_any_telegram_verifies(ctx, P, fns)
     # ---------------- d/e: the pass itself ---------------------------------------------------------
